@@ -144,6 +144,61 @@ CHECKS: dict[str, tuple[str, str, str, str, str]] = {
         "differential execution of tagged vs untagged generated code against NumPy + TLC "
         "model checking of every variant's kernel dependency graph (PtKernel)",
         "DESIGN.md section 4 C07"),
+    "C08": (
+        "model_checking",
+        "DistExec.tla models execute_distributed_partition at the grain of its blocking MPI "
+        "calls on all ranks over a model of MPI matching; its instance data are the REAL "
+        "partitions of all ranks, exported after find_distributed_partition -> verify -> "
+        "number_distributed_tags ran under a simulated MPI on programs that DistComm.tla "
+        "enumerates (all communication structures <= 3 ranks <= 4 messages up to rank "
+        "permutation, -simulate beyond, all variants) plus a library of 30 named topologies. TLC "
+        "explores all schedules of every instance (crash = read before produced / after "
+        "release, spin, misdelivery, wrong outputs, deadlock; liveness under weak fairness). The "
+        "real executor runs under a controlled scheduler on random schedules and, for the small "
+        "instances, on ALL schedules (DFS re-execution); outputs are compared with the "
+        "unpartitioned global graph, every run's event trace is validated by DistTrace.tla, and "
+        "the set of global states the real executor reaches must equal TLC's reachable set.",
+        "Trusted: TLC; the simulated MPI (non-overtaking per (source, tag), buffered Isend, "
+        "rendezvous Wait, arbitrary non-empty Waitsome subsets), not a real MPI; part programs "
+        "are a NumPy reference evaluator of the part expressions, generated loopy code is only "
+        "generated, never run. Program space beyond the exhaustive bound is sampled.",
+        "TLA+ state machine of the executor model-checked by TLC on partitions exported from the "
+        "real partitioner; trace validation and reachable-state-set comparison against the real "
+        "executor under an exhaustive controlled scheduler",
+        "DESIGN.md section 4 C08; notes/dist.md"),
+    "C09": (
+        "model_checking",
+        "DistPartition.tla states the DistributedGraphPart contract, RoundsAgree "
+        "(algorithm-free: one global round assignment that every rank's part sequence projects) "
+        "and the tag-numbering rules as predicates over the partitions of ALL ranks; TLC "
+        "evaluates them on every instance exported from the real partitioner (ranks as threads, "
+        "and as separate processes with different hash seeds; symbolic tags of seven hashable "
+        "types), names the failing clauses, and additionally model-checks every instance with "
+        "DistExec. The specification's own partitioner is held to the same contract for every "
+        "structure in the exhaustive bound.",
+        "Artefact validation: the partitions are real, the predicates are the specification; "
+        "exporter = reflective walk over dataclass fields. Hash seeds are sampled. RoundsAgree's "
+        "witness construction is cross-checked against brute-force search on small instances.",
+        "TLA+ predicates evaluated by TLC on exported artefacts of all ranks + model checking of "
+        "the executor on them",
+        "DESIGN.md section 4 C09; notes/dist.md"),
+    "C10": (
+        "fault_enumeration",
+        "DistComm.tla injects every single fault (drop/duplicate/retag/redirect one send or one "
+        "receive, self message, cycle-closing dependency) at every communication operation of "
+        "every valid program in its bound, pairs on small programs and samples beyond; "
+        "WellFormedInput (evaluated by TLC both on the abstract program and on the skeleton "
+        "extracted from the real DAGs) decides the expected verdict; the real "
+        "find_distributed_partition/verify run on all ranks under a simulated MPI with "
+        "peer-raised classification; malformed => documented diagnostic on a rank showing the "
+        "fault, nobody keeps a partition (otherwise DistExec model-checks what was returned); "
+        "well-formed => accepted.",
+        "'Affected ranks' is read as: raised on a rank whose local graph shows the fault or on "
+        "the root. Faults are those expressible on single ends of messages.",
+        "fault enumeration by a TLA+ generator with an executable well-formedness predicate as "
+        "oracle; three-way agreement (generator, real-DAG skeleton, reference evaluator) before "
+        "judging the implementation",
+        "DESIGN.md section 4 C10; notes/dist.md"),
     "C11": (
         "model_checking",
         "For every kernel produced by the real generate_loopy (C01's random static programs, "
